@@ -102,15 +102,27 @@ def _zip_partner(func, name: str, x):
         e = defs[0]
         if isinstance(e, ast.Call) and _norm(e.func) in ("tuple", "list") and len(e.args) == 1:
             e = e.args[0]
-        if not (isinstance(e, (ast.GeneratorExp, ast.ListComp)) and len(e.generators) == 1):
-            return None
-        g = e.generators[0]
-        if not (isinstance(g.target, ast.Name) and _norm(g.iter) == _norm(src)):
-            return None
-        elt = e.elt
+        if isinstance(e, ast.Name):
+            # a local list filled by `for v in P: [if …:] name.append(E(v))` and nothing else
+            inits = A.assignments_to(func, e.id)
+            apps = [c for c in A.calls(func) if isinstance(c.func, ast.Attribute) and isinstance(c.func.value, ast.Name) and c.func.value.id == e.id]
+            loops = [lp for lp in A.walk_no_nested(func) if isinstance(lp, ast.For) and apps and any(c is apps[0] for c in ast.walk(lp))]
+            if not (len(inits) == 1 and _norm(inits[0]) in ("[]", "list()") and len(apps) == 1 and apps[0].func.attr == "append" and len(apps[0].args) == 1 and len(loops) == 1):
+                return None
+            lp = loops[0]
+            if not (isinstance(lp.target, ast.Name) and _norm(lp.iter) == _norm(src)):
+                return None
+            elt, var = apps[0].args[0], lp.target.id
+        else:
+            if not (isinstance(e, (ast.GeneratorExp, ast.ListComp)) and len(e.generators) == 1):
+                return None
+            g = e.generators[0]
+            if not (isinstance(g.target, ast.Name) and _norm(g.iter) == _norm(src)):
+                return None
+            elt, var = e.elt, g.target.id
         if isinstance(elt, ast.Call) and _norm(elt.func) in ("tuple", "list") and len(elt.args) == 1:
             elt = elt.args[0]
-        return A.substitute(elt, {g.target.id: x}) if hasattr(A, "substitute") else _subst(elt, g.target.id, x)
+        return _subst(elt, var, x)
     return None
 
 
